@@ -10,11 +10,14 @@
    History: before fix c019b1a the scan compared raw dict keys and non_negative={2: ..}, l1_reg={-1: ..} on order 3 was
    accepted (the table theorems needed the hypothesis "keys >= 0" and had refutation witnesses); the model follows the
    repaired scan and the theorems hold for all int keys (Example C11_negative_key_alias_rejected). *)
-From Coq Require Import List Arith Bool ZArith.
+From Coq Require Import List Arith Bool ZArith Reals.
 From TLV Require Import Base.PyList Base.Tensor.
 From TLV Require Import Model.Constraints Proofs.ConstraintsProofs Proofs.ConstraintsProofsLoop Proofs.ConstraintsProofsKeys
   Proofs.ConstraintsProofsTotal.
+From TLV Require Import Base.Ops Model.Prox Proofs.ProxProofsHard Proofs.ProxProofsMono.
+From TLV Require Import Proofs.ConstraintsProofsFeasible.
 Import ListNotations.
+Close Scope R_scope.
 
 (* (i) decision logic at the real call site (the twelve keywords), every request: when the table exists, entry m is (k,p)
    iff keyword k requested p on m, and empty iff nobody requested anything on m *)
@@ -135,6 +138,69 @@ Theorem C11_returned_factor_feasible_partial : forall (P : Type) (truthy : P -> 
 Proof. exact @zcp_feasible. Qed.
 Print Assumptions C11_returned_factor_feasible_partial.
 
+(* END TO END for the kinds whose operator C12 proves feasible (Proofs/ProxProofs*.v, model of tenalg/proximal.py over the reals):
+   factors are matrices of reals given by their rows; op_c12 toR toN other = the C12 model operators for non_negative, simplex,
+   monotonicity, hard_sparsity, normalized_sparsity (lifted with Prox.flatwise / Prox.colwise as in Corr/C12.v) and ARBITRARY
+   operators `other` for the remaining kinds; toR / toN read a parameter as a real / a natural.  For every request, budget,
+   environment and initialisation, a mode on which the kind was requested (computed initialisation, or updated at least once): *)
+Theorem C11_non_negative_end_to_end : forall (P : Type) (truthy : P -> bool) (toR : P -> R) (toN : P -> nat)
+  (other : kind -> P -> mat -> mat) (dM : mat) (msub madd : mat -> mat -> mat) (n : nat) (sp : list (kind * @zspec P))
+  (E : env (M := mat)) (i0 : init (M := mat)) (fixed : list nat) (n_outer n_inner : nat) (zero : mat) (fs : list mat) (m : nat),
+  constrained_cp dM (op_c12 toR toN other) (zvalidate truthy n sp) msub madd E n i0 fixed n_outer n_inner zero = Ok fs ->
+  m < length fs -> init_computed i0 = true \/ (In m (modes_list n fixed) /\ 0 < n_outer) ->
+  forall (s : @zspec P) (p : P), In (KNonNeg, s) sp -> zrequested truthy n s m p ->
+  Forall (fun a : R => (0 <= a)%R) (concat (nth m fs dM)).
+Proof. exact @cp_nonneg. Qed.
+Print Assumptions C11_non_negative_end_to_end.
+
+(* at most k non-zero entries in the factor (the code thresholds the whole factor matrix; this implies <= k per column) *)
+Theorem C11_hard_sparsity_end_to_end : forall (P : Type) (truthy : P -> bool) (toR : P -> R) (toN : P -> nat)
+  (other : kind -> P -> mat -> mat) (dM : mat) (msub madd : mat -> mat -> mat) (n : nat) (sp : list (kind * @zspec P))
+  (E : env (M := mat)) (i0 : init (M := mat)) (fixed : list nat) (n_outer n_inner : nat) (zero : mat) (fs : list mat) (m : nat),
+  constrained_cp dM (op_c12 toR toN other) (zvalidate truthy n sp) msub madd E n i0 fixed n_outer n_inner zero = Ok fs ->
+  m < length fs -> init_computed i0 = true \/ (In m (modes_list n fixed) /\ 0 < n_outer) ->
+  forall (s : @zspec P) (p : P), In (KHardSparsity, s) sp -> zrequested truthy n s m p ->
+  nnzR (concat (nth m fs dM)) <= toN p.
+Proof. exact @cp_hard_sparsity. Qed.
+Print Assumptions C11_hard_sparsity_end_to_end.
+
+(* the factor is the transpose of a list of columns that are >= 0 and sum to the parameter (parameter > 0) *)
+Theorem C11_simplex_end_to_end : forall (P : Type) (truthy : P -> bool) (toR : P -> R) (toN : P -> nat)
+  (other : kind -> P -> mat -> mat) (dM : mat) (msub madd : mat -> mat -> mat) (n : nat) (sp : list (kind * @zspec P))
+  (E : env (M := mat)) (i0 : init (M := mat)) (fixed : list nat) (n_outer n_inner : nat) (zero : mat) (fs : list mat) (m : nat),
+  constrained_cp dM (op_c12 toR toN other) (zvalidate truthy n sp) msub madd E n i0 fixed n_outer n_inner zero = Ok fs ->
+  m < length fs -> init_computed i0 = true \/ (In m (modes_list n fixed) /\ 0 < n_outer) ->
+  forall (s : @zspec P) (p : P), In (KSimplex, s) sp -> zrequested truthy n s m p -> (0 < toR p)%R ->
+  exists Z, nth m fs dM = cols_of Rops Z /\ Forall (fun z => Forall (fun a : R => (0 <= a)%R) z /\ lsum Rops z = toR p) Z.
+Proof. exact @cp_simplex. Qed.
+Print Assumptions C11_simplex_end_to_end.
+
+(* the factor is the transpose of a list of non-decreasing columns *)
+Theorem C11_monotonicity_end_to_end : forall (P : Type) (truthy : P -> bool) (toR : P -> R) (toN : P -> nat)
+  (other : kind -> P -> mat -> mat) (dM : mat) (msub madd : mat -> mat -> mat) (n : nat) (sp : list (kind * @zspec P))
+  (E : env (M := mat)) (i0 : init (M := mat)) (fixed : list nat) (n_outer n_inner : nat) (zero : mat) (fs : list mat) (m : nat),
+  constrained_cp dM (op_c12 toR toN other) (zvalidate truthy n sp) msub madd E n i0 fixed n_outer n_inner zero = Ok fs ->
+  m < length fs -> init_computed i0 = true \/ (In m (modes_list n fixed) /\ 0 < n_outer) ->
+  forall (s : @zspec P) (p : P), In (KMonotone, s) sp -> zrequested truthy n s m p ->
+  exists Z, nth m fs dM = cols_of Rops Z /\ Forall ndec Z.
+Proof. exact @cp_monotone. Qed.
+Print Assumptions C11_monotonicity_end_to_end.
+
+(* normalised sparsity: the factor is the operator's output on some v; whenever the kept part of v is not zero (otherwise the
+   code divides 0 by 0) and v is rectangular (the output has as many entries as v): unit l2 norm and at most k non-zeros.
+   _partial: the two side conditions are on the operator's unknown input *)
+Theorem C11_normalized_sparsity_end_to_end_partial : forall (P : Type) (truthy : P -> bool) (toR : P -> R) (toN : P -> nat)
+  (other : kind -> P -> mat -> mat) (dM : mat) (msub madd : mat -> mat -> mat) (n : nat) (sp : list (kind * @zspec P))
+  (E : env (M := mat)) (i0 : init (M := mat)) (fixed : list nat) (n_outer n_inner : nat) (zero : mat) (fs : list mat) (m : nat),
+  constrained_cp dM (op_c12 toR toN other) (zvalidate truthy n sp) msub madd E n i0 fixed n_outer n_inner zero = Ok fs ->
+  m < length fs -> init_computed i0 = true \/ (In m (modes_list n fixed) /\ 0 < n_outer) ->
+  forall (s : @zspec P) (p : P), In (KNormSparsity, s) sp -> zrequested truthy n s m p ->
+  exists v : mat, nth m fs dM = op_c12 toR toN other KNormSparsity p v /\
+    (sumsq Rops (hard_thresholding Rops (toN p) (concat v)) <> 0%R -> length (concat (nth m fs dM)) = length (concat v) ->
+     sumsq Rops (concat (nth m fs dM)) = 1%R /\ nnzR (concat (nth m fs dM)) <= toN p).
+Proof. exact @cp_normalized_sparsity. Qed.
+Print Assumptions C11_normalized_sparsity_end_to_end_partial.
+
 (* requests with two constraints on one mode are rejected by the decomposition, whatever the rest *)
 Theorem C11_decomposition_rejects_double : forall (P : Type) (truthy : P -> bool) (M : Type) (dM : M)
   (op : kind -> P -> M -> M) (msub madd : M -> M -> M) (n : nat) (sp : list (kind * @zspec P)) (E : env (M := M))
@@ -238,3 +304,15 @@ Example C11_nonvacuous_skeleton :
   constrained_cp 0 (fun _ p _ => 100 + p) (zvalidate truthy 3 sp) (fun _ _ => 0) (fun _ _ => 0) E 3 (IUser [7; 8; 9]) [0] 2 1 0
   = Ok [7; 101; 0].
 Proof. vm_compute. reflexivity. Qed.
+
+(* non-vacuity of the end-to-end theorems: with the C12 operators a run exists for hard_sparsity = 2 on mode 1 (by list) and
+   non_negative on mode 0 (by key -3), order 3, any environment, budgets (2, 1) *)
+Example C11_end_to_end_nonvacuous : forall (other : kind -> nat -> mat -> mat) (E : env (M := mat)),
+  let truthy := fun p : nat => negb (Nat.eqb p 0) in
+  let sp := zkeywords (fun k => match k with KNonNeg => ZDict [((-3)%Z, 1)] | KHardSparsity => ZList [None; Some 2] | _ => ZNone end) in
+  exists fs, constrained_cp [] (op_c12 INR (fun p => p) other) (zvalidate truthy 3 sp) (fun a _ => a) (fun a _ => a) E 3
+                            (IComputed [[]; []; []]) [] 2 1 [] = Ok fs.
+Proof.
+  intros other E. cbv zeta.
+  eapply (@zcp_valid_request_returns nat _ mat) with (tab := [Some (KNonNeg, 1); Some (KHardSparsity, 2); None]); auto; simpl; auto.
+Qed.
